@@ -5,16 +5,33 @@ LEAN_MODULES = ["RtoscModel.Props.C17"]
 THEOREMS = ["Rtosc.Meta.iterate_serialize", "Rtosc.Meta.get_first", "Rtosc.Meta.find_presence",
             "Rtosc.Meta.length_serialize"]
 HARNESS = {"src": ["meta.cpp"]}
-RULE = ("blocks are serialised from generated entry lists (1..8 entries, keys/values over the alphabet "
-        "a b c : = space 0 1, empty values, repeated keys, valueless entries) plus a stream of near-well-formed "
-        "variants; each block is queried with a present or absent key; a case is non-trivial when the block has "
-        ">= 2 entries or a value; distinct = distinct op line")
+RULE = ("blocks are serialised from generated entry lists: mostly 1..8 entries with keys of 1..3 and values of 0..4 bytes "
+        "over the alphabet a b c A B C : = space 0 1 and the bytes 01 7f 80 e9 ff (letter-case pairs, bytes >= 0x80), "
+        "empty values, repeated keys, valueless entries; plus streams of long entries (keys <= 20, values <= 300 bytes), "
+        "of 9..30 entries, and a few blocks larger than 65535 bytes; each block is queried with a present key, a random "
+        "key or an adversarial neighbour of a present key (':'+k, k+byte, k minus its last byte, case-flipped k, k with "
+        "one high bit flipped, the empty key, a value used as key); rows of a fixed port table written in the harness "
+        "with the real macros of rtosc/port-sugar.h (rParam rParamF rParamI rOption rToggle rString rArrayI rAction with "
+        "rProp rMap rDoc rOptions rPreset rPresets rDefault rDefaultId rDefaultDepends rLinear rLog rShort rEnabledBy "
+        "rDepends rNoDefaults rCentered rBlobType) are read from the table and must be byte-identical to the serialisation "
+        "of the entries the macros stand for; blocks outside the statement (extra NULs, no leading ':', empty, NULL, "
+        "truncated, rSpecial, empty or ':'-led keys) are only classified: no read past the block / read past the block; "
+        "a case is non-trivial when the block is in the statement and has >= 2 entries or a value; distinct = distinct op line")
 ASSUMPTIONS = ["entries are well-formed: key non-empty, NUL-free, not starting with ':'; values NUL-free",
-               "the container is obtained through Port::meta() (leading ':' stripped)"]
+               "the container is obtained through Port::meta() (leading ':' stripped)",
+               "queried keys are C strings (NUL-free); the theorems also cover keys with NUL bytes, which no C caller can pass",
+               "rSpecial(doc) of port-sugar.h emits ':special\\0' doc '\\0' (no '='), which is not a serialisation of "
+               "key/value entries: blocks using it are outside the statement; for them, as for every other block outside "
+               "the statement (empty, NULL, no leading ':', extra NULs, truncated), the check only demands that the readers "
+               "do not crash and that model and implementation agree on whether a read past the block happens",
+               "the tie between the macros and the specification `serialize` is established on the fixed port table of "
+               "harness/meta.cpp (every metadata-producing macro of the header except rSpecial is used there), not proved"]
 TRUSTED = ["hand-written model RtoscModel/Meta.lean of metaiterator_advance, MetaIterator::operator++, "
-           "MetaContainer::begin/find/length/operator[], Port::meta()"]
+           "MetaContainer::begin/find/length/operator[], Port::meta()",
+           "the list FIXED in tools/props/c17.py saying which entries each macro invocation of harness/meta.cpp stands for"]
 
-ALPH = b"abc:= 01"
+LETTERS = b"abcABC"
+ALPH = b"abcABC:= 01" + bytes([0x01, 0x7f, 0x80, 0xe9, 0xff])
 
 
 def hx(b):
@@ -30,14 +47,63 @@ def ser(entries):
     return out + b"\0"
 
 
+# ------------------------------------------------------------------------------------------------
+# what the macros of rtosc/port-sugar.h stand for, entry by entry (independent of the header text)
+# ------------------------------------------------------------------------------------------------
+def rProp(k): return [(k.encode(), None)]
+def rMap(k, v): return [(k.encode(), v.encode())]
+def rDoc(d): return rMap("documentation", d)
+def rShort(s): return rMap("shortname", s)
+def rDefault(v): return rMap("default", v)
+def rDefaultId(v): return rMap("default", '"%s"S' % v)
+def rDefaultDepends(p): return rMap("default depends", p)
+def rPreset(no, v): return rMap("default %d" % no, v)
+def rPresets(*vs): return sum((rPreset(i, v) for i, v in enumerate(vs)), [])
+def rOptions(*xs): return sum((rMap("map %d" % i, x) for i, x in enumerate(xs)), [])
+def rLinear(a, b): return rMap("min", a) + rMap("max", b) + rMap("scale", "linear")
+def rLog(a, b): return rMap("min", a) + rMap("max", b) + rMap("scale", "logarithmic")
+def rEnabledBy(p): return rMap("enabled by", p)
+def rDepends(*ps): return rMap("depends", "".join(p + "," for p in ps))
+def rBlobType(c): return rMap("blob type", c)
+rNoDefaults = rProp("no defaults")
+rCentered = rProp("centered")
+def DOC(*a): return sum(a[:-1], []) + rDoc(a[-1])
+def rParam(*a): return rProp("parameter") + rMap("min", "0") + rMap("max", "127") + DOC(*a)
+def rParamF(*a): return rProp("parameter") + DOC(*a)
+rParamI = rToggle = rArrayI = rParamF
+def rOption(*a): return rProp("parameter") + rProp("enumerated") + DOC(*a)
+def rString(n, *a): return rMap("length", n) + rProp("parameter") + DOC(*a)
+def rAction(*a): return DOC(*a)
+
+
+# row i of C17_TABLE in harness/meta.cpp
+FIXED = [
+    rParam(rShort("vol"), rDefault("64"), "Volume of the part"),
+    rParamF(rLog("0.1", "20000"), rMap("unit", "Hz"), rDefault("440.0"), "filter: cutoff = f(x)"),
+    rOption(rOptions("sine", "saw tooth", "square"), rDefault("saw tooth"), "Waveform"),
+    rToggle(rPreset(0, "true") + rPreset(1, "false"), rDefaultDepends("mode"), "Enable"),
+    rParamI(rPresets("7", "8", "9"), rLinear("0", "10"), rLinear("1", "5"), "Kind (repeated keys)"),
+    rString("32", rDefaultId("unnamed"), rEnabledBy("on"), ""),
+    rArrayI(rDepends("mode", "kind"), rNoDefaults, rCentered, rBlobType("i"), "Steps: a=b:c"),
+    rAction("Stop everything"),
+    rParam(rProp("internal") + rProp("alias") + rMap("default 0", "0"), rDoc("first doc"), "second doc"),
+]
+# rows outside the statement: (row index, bytes the macros are believed to give) — rSpecial
+SPECIAL = [(9, ser(rProp("parameter") + rMap("min", "0") + rMap("max", "127"))[:-1] + b":special\0disable\0" +
+            ser(rDefault("64") + rDoc("Panning")))]
+
+
+# ------------------------------------------------------------------------------------------------
+# generator
+# ------------------------------------------------------------------------------------------------
 def rand_str(rng, lo, hi):
     n = rng.randint(lo, hi)
     return bytes(rng.choice(ALPH) for _ in range(n))
 
 
-def rand_key(rng):
+def rand_key(rng, hi=3):
     while True:
-        k = rand_str(rng, 1, 3)
+        k = rand_str(rng, 1, hi)
         if k[0:1] != b":":
             return k
 
@@ -46,48 +112,169 @@ def spec_token(entries):
     return ";".join(hx(k) + "=" + ("N" if v is None else hx(v)) for k, v in entries)
 
 
+def flip_case(k):
+    return bytes((c ^ 0x20) if (65 <= c <= 90 or 97 <= c <= 122) else c for c in k)
+
+
+def rand_entries(rng, profile):
+    """profile: small | long | many | huge"""
+    if profile == "small":
+        ne, kh, vh = rng.randint(1, 8), 3, 4
+    elif profile == "long":
+        ne, kh, vh = rng.randint(1, 8), 20, 300
+    elif profile == "many":
+        ne, kh, vh = rng.randint(9, 30), rng.choice([3, 20]), rng.choice([4, 40, 300])
+    else:
+        ne, kh, vh = rng.randint(2, 30), 20, 300
+    entries = []
+    for _ in range(ne):
+        k = rand_key(rng, kh)
+        if entries and rng.random() < 0.15:
+            k = rng.choice(entries)[0]                      # repeated key
+        elif entries and rng.random() < 0.1:
+            k0 = rng.choice(entries)[0]                     # near-duplicate key: other case / longer / shorter
+            k = rng.choice([flip_case(k0), k0 + rand_str(rng, 1, 1), k0[:-1] or k0])
+        r = rng.random()
+        v = None if r < 0.3 else (b"" if r < 0.4 else rand_str(rng, 1, vh))
+        entries.append((k, v))
+    if profile == "huge":
+        # one value (or the values together) carry the block over 65535 bytes
+        need = 65536 + rng.randint(0, 3000) - len(ser(entries))
+        idxs = [rng.randrange(ne)] if rng.random() < 0.5 else list(range(ne))
+        for j in idxs:
+            k, v = entries[j]
+            entries[j] = (k, (v or b"") + rand_str(rng, need // len(idxs) + 1, need // len(idxs) + 1))
+    return entries
+
+
+def rand_query(rng, entries, stats):
+    """returns a NUL-free key to look up"""
+    r = rng.random()
+    k = rng.choice(entries)[0]
+    if r < 0.5:
+        kind, key = "present", k
+    elif r < 0.65:
+        kind, key = "random", rand_key(rng, max(3, min(len(k), 20)))
+    else:
+        c = rng.randint(0, 7)
+        if c == 0:
+            kind, key = "colon+k", b":" + k
+        elif c == 1:
+            kind, key = "k+byte", k + rand_str(rng, 1, 1)
+        elif c == 2:
+            kind, key = "k-last", k[:-1]
+        elif c == 3:
+            kind, key = "case-flipped", flip_case(k)
+        elif c == 4:
+            j = rng.randrange(len(k))
+            b = k[j] ^ 0x80
+            kind, key = "high-bit", k[:j] + bytes([b if b else 0xff]) + k[j + 1:]
+        elif c == 5:
+            kind, key = "empty", b""
+        elif c == 6:
+            vs = [v for _, v in entries if v]
+            kind, key = "value-as-key", (rng.choice(vs) if vs else b"=")
+        else:
+            kind, key = "eq+k", b"=" + k
+    stats["queries"][kind] = stats["queries"].get(kind, 0) + 1
+    if all(kk != key for kk, _ in entries):
+        stats["absent_key_queries"] += 1
+    return key
+
+
+def variant(rng, entries, stats):
+    """a block outside the statement; the model is still defined on it"""
+    block = ser(entries)
+    c = rng.randint(0, 8)
+    name = ["extra-nul", "no-leading-colon", "single-nul", "null", "truncated", "truncated-1", "special",
+            "empty-key", "colon-key"][c]
+    if c == 0:
+        block = block + b"\0" * rng.randint(1, 3)
+    elif c == 1:
+        block = block[1:]
+    elif c == 2:
+        block = b"\0"
+    elif c == 3:
+        block = b""                                         # metadata == NULL
+    elif c == 4:
+        block = block[:rng.randint(1, len(block) - 1)]
+    elif c == 5:
+        block = block[:-rng.randint(1, 2)]
+    elif c == 6:
+        j = rng.randint(0, len(entries))
+        block = ser(entries[:j])[:-1] + b":special\0" + rand_str(rng, 0, 4) + b"\0" + ser(entries[j:])
+    elif c == 7:
+        j = rng.randint(0, len(entries))
+        block = ser(entries[:j] + [(b"", rng.choice([None, b"", b"a"]))] + entries[j:])
+    else:
+        j = rng.randint(0, len(entries))
+        block = ser(entries[:j] + [(b":" + rand_key(rng), rng.choice([None, b"1"]))] + entries[j:])
+    stats["variants"][name] = stats["variants"].get(name, 0) + 1
+    return block
+
+
+def fixed_ops(rng, stats, per_row):
+    for i, entries in enumerate(FIXED):
+        keys = [k for k, _ in entries]
+        qs = [keys[0], keys[-1], b"documentation", b"min", b"default", b"Default", b":" + keys[-1]]
+        for _ in range(per_row):
+            qs.append(rand_query(rng, entries, stats))
+        for q in qs:
+            stats["macro_rows"] += 1
+            yield "M %d %s %s" % (i, hx(q), spec_token(entries))
+    for i, block in SPECIAL:
+        for q in (b"special", b"disable", b"default", b"nope"):
+            stats["macro_rows_outside"] += 1
+            yield "M %d %s ? %s" % (i, hx(q), hx(block))
+
+
 def generate(rng, tier, stats):
-    n = 4000 if tier == "quick" else 150000
+    quick = tier == "quick"
+    n = 4000 if quick else 150000
     stats.update({"wf_blocks": 0, "variant_blocks": 0, "entries_hist": {}, "valueless": 0, "empty_value": 0,
-                  "dup_key_blocks": 0, "absent_key_queries": 0})
-    for _ in range(n):
-        ne = rng.randint(1, 8)
-        entries = []
-        for _ in range(ne):
-            k = rand_key(rng)
-            r = rng.random()
-            v = None if r < 0.3 else (b"" if r < 0.4 else rand_str(rng, 1, 4))
-            entries.append((k, v))
+                  "dup_key_blocks": 0, "absent_key_queries": 0, "queries": {}, "variants": {}, "profiles": {},
+                  "macro_rows": 0, "macro_rows_outside": 0, "max_block_bytes": 0, "blocks_over_257": 0,
+                  "blocks_over_65535": 0, "blocks_with_high_bytes": 0, "blocks_with_both_cases": 0})
+    yield from fixed_ops(rng, stats, 3 if quick else 40)
+    nhuge = 3 if quick else 24
+    for it in range(n):
+        r = rng.random()
+        if it < nhuge:
+            profile = "huge"
+        elif r < (0.80 if quick else 0.94):
+            profile = "small"
+        elif r < (0.90 if quick else 0.97):
+            profile = "long"
+        else:
+            profile = "many"
+        entries = rand_entries(rng, profile)
+        ne = len(entries)
+        if profile != "huge" and rng.random() < 0.1:
+            stats["variant_blocks"] += 1
+            key = rand_query(rng, entries, {"queries": {}, "absent_key_queries": 0})
+            yield "%s %s ?" % (hx(variant(rng, entries, stats)), hx(key))
+            continue
+        stats["profiles"][profile] = stats["profiles"].get(profile, 0) + 1
         stats["entries_hist"][str(ne)] = stats["entries_hist"].get(str(ne), 0) + 1
         stats["valueless"] += sum(1 for _, v in entries if v is None)
         stats["empty_value"] += sum(1 for _, v in entries if v == b"")
         if len(set(k for k, _ in entries)) < ne:
             stats["dup_key_blocks"] += 1
-        if rng.random() < 0.7:
-            key = rng.choice(entries)[0]
-        else:
-            key = rand_key(rng)
-            if all(k != key for k, _ in entries):
-                stats["absent_key_queries"] += 1
+        key = rand_query(rng, entries, stats)
         block = ser(entries)
-        if rng.random() < 0.1:
-            # near-well-formed variants (outside the theorem's hypothesis, inside the model's domain)
-            stats["variant_blocks"] += 1
-            c = rng.randint(0, 2)
-            if c == 0:
-                block = block + b"\0" * rng.randint(1, 3)
-            elif c == 1:
-                block = block[1:]          # no leading ':'
-            else:
-                block = b"\0"
-            yield "%s %s ?" % (hx(block), hx(key))
-        else:
-            stats["wf_blocks"] += 1
-            yield "%s %s %s" % (hx(block), hx(key), spec_token(entries))
+        stats["max_block_bytes"] = max(stats["max_block_bytes"], len(block))
+        stats["blocks_over_257"] += len(block) > 257
+        stats["blocks_over_65535"] += len(block) > 65535
+        stats["blocks_with_high_bytes"] += any(c >= 0x80 for c in block)
+        stats["blocks_with_both_cases"] += any(97 <= c <= 122 for c in block) and any(65 <= c <= 90 for c in block)
+        stats["wf_blocks"] += 1
+        yield "%s %s %s" % (hx(block), hx(key), spec_token(entries))
 
 
 def nontrivial(op):
     w = op.split()
+    if w[0] == "M":
+        return len(w) > 3 and w[3] != "?"
     return len(w) > 2 and w[2] != "?" and (";" in w[2] or not w[2].endswith("=N"))
 
 
@@ -95,26 +282,75 @@ def unhx(s):
     return b"" if s == "-" else bytes.fromhex(s)
 
 
-def oracle(op, out):
-    """The property itself, evaluated on the implementation's output."""
-    w = op.split()
-    if len(w) < 3 or w[2] == "?":
-        return None if not out.startswith("crash") else "implementation crashed: " + out
-    entries = []
-    for e in w[2].split(";"):
-        k, v = e.split("=")
-        entries.append((unhx(k), None if v == "N" else unhx(v)))
-    key = unhx(w[1])
-    block = unhx(w[0])
+def may_read_past(block):
+    """Outside the statement only this is asked: a reader may run past the block only if the block (after
+    Port::meta() stripped one ':') neither starts with NUL nor contains the terminating double NUL."""
+    if not block:
+        return False                    # metadata == NULL
+    rest = block[1:] if block[0:1] == b":" else block
+    if rest[0:1] == b"\0":
+        return False
+    return b"\0\0" not in rest
+
+
+def expected(entries, key, block):
     exp_pairs = ",".join(hx(k) + "=" + ("NULL" if v is None else hx(v)) for k, v in entries)
     first = next(((k, v) for k, v in entries if k == key), None)
     g = "NULL" if first is None or first[1] is None else hx(first[1])
     f = 1 if first is not None else 0
-    exp = "P %s G %s F %d L %d" % (exp_pairs, g, f, len(block))
+    return "P %s G %s F %d L %d" % (exp_pairs, g, f, len(block))
+
+
+def parse_spec(tok):
+    entries = []
+    for e in tok.split(";"):
+        k, v = e.split("=")
+        entries.append((unhx(k), None if v == "N" else unhx(v)))
+    return entries
+
+
+def short(s):
+    return s if len(s) < 600 else s[:300] + "…" + s[-200:]
+
+
+def oracle(op, out):
+    """The property itself, evaluated on the implementation's output."""
+    w = op.split()
+    macro = w[0] == "M"
+    if macro:
+        w = w[1:]                       # <i> <key> <spec> [<block>]
+    if len(w) < 3:
+        return None
+    if w[2] == "?":
+        block = unhx(w[3]) if macro else unhx(w[0])
+        if out == "V ok":
+            return None
+        if out == "V oob" and may_read_past(block) and not macro:
+            return None
+        return "block outside the statement: the readers must end normally, implementation: " + short(out)
+    entries = parse_spec(w[2])
+    key = unhx(w[1])
+    if macro:
+        block = ser(entries)
+        exp = "M %s %s" % (hx(block), expected(entries, key, block))
+        if out != exp:
+            if out.split()[1:2] != [hx(block)] and out.startswith("M "):
+                return ("row %s of the macro-built port table is not the serialisation of its entries: expected block %s"
+                        % (w[0], short(hx(block))))
+            return "expected `%s`" % short(exp)
+        return None
+    block = unhx(w[0])
+    exp = expected(entries, key, block)
     if out != exp:
-        return "expected `%s`" % exp
+        return "expected `%s`" % short(exp)
     return None
+
 
 LEVEL_TEXT = ("Lean theorems (iterate_serialize, get_first, find_presence, length_serialize) hold for every well-formed "
               "metadata block of any size; the model they are about is compared with the compiled implementation on "
-              "thousands of generated blocks per run, and the property is also evaluated directly on the implementation's output")
+              "thousands of generated blocks per run (up to > 64 KiB), the specification `serialize` is compared with what the "
+              "real port-sugar.h macros emit on a fixed port table, and the property is also evaluated directly on the "
+              "implementation's output")
+LEVEL_NOTE = ("that rProp/rMap/rDoc/rOptions/rPreset/… produce `serialize` of their entries is checked on the fixed table of "
+              "harness/meta.cpp on every run, not proved (the preprocessor is not modelled); rSpecial is outside `serialize`'s "
+              "image and outside the statement")
